@@ -382,6 +382,69 @@ def r11_12(run, model):
            witness="the file `let s = \\\\one<CR><LF> \\\\two<CR><LF>;` saved with CRLF line ends: the literal denotes \"one\\ntwo\\r\" (LF file: \"one\\ntwo\")")
 
 
+def r11_23(run, model):
+    run.rule("R11.23", "a number token is made of digits: the sign in front of a number is the operator `-`, which the parser places by "
+                       "precedence - a numeric token whose regex can start with a sign swallows the operator of `a-1` (the longest match "
+                       "lexes `a` `-1`, two operands with nothing between them) and binds tighter than any operator in `-1.max(2)`")
+    import re as _re
+    n = 0
+    for name, k, t in TB.token_kinds(model):
+        if k != "regex" or not t or "[0-9]" not in t:
+            continue
+        n += 1
+        # the first characters a match can start with: the leading atoms up to the first that is not optional
+        rest = t
+        firsts = []
+        while rest:
+            mm = _re.match(r"(\[[^\]]*\]|\\.|\([^)]*\)|.)([?*+]|\{[0-9,]*\})?", rest)
+            atom, q = mm.group(1), mm.group(2) or ""
+            firsts.append(atom)
+            rest = rest[mm.end():]
+            if not (q in ("?", "*") or q.startswith("{0")):
+                break
+        ok = all(a in ("[0-9]", "\\d") for a in firsts)
+        run.ob("R11.23", f"TokenKind::{name}|starts with a digit", ok, site(TB.LEXER, None), f"/{t}/ can start with {firsts}",
+               witness="let a = 5; a-1 lexes as `a` `-1`: a parse error, or with a newline between them two statements")
+    run.floor("numeric token regexes", n, 12)
+
+
+def r11_24(run, model):
+    run.rule("R11.24", "an operand position holds a whole expression: the parser of primary forms (the function the Pratt loop calls for its "
+                       "left operand) is entered from the Pratt loop only - a sub-expression parsed by calling it directly ends at the primary "
+                       "form, and the operators that follow attach to the enclosing construct instead "
+                       "(`if a { 1 } else if b { 2 } else { 3 } + 10` would add 10 to the outer `if`)")
+    EXPR = "crates/parser/src/expr.rs"
+    pratt = [f for f in model.fns(EXPR) if f.body is not None and any(p["pat"].get("name") == "min_bp" for p in f.params() if p["pat"]["k"] == "PIdent")]
+    pratt = [f for f in pratt if any(True for _ in S.find(f.body, "Loop", "While"))]
+    if len(pratt) != 1:
+        raise AnalysisIncomplete(f"parser::expr: the Pratt loop (a function taking min_bp that loops) was not identified: {[f.name for f in pratt]}")
+    loop = pratt[0]
+    names = {g.name for g in model.fns(EXPR)}
+    # the primary parser: a function of this file the Pratt loop calls outside its loop, returning an optional closed marker
+    cands = [S.callee_name(c) for c in S.walk(loop.body) if c["k"] == "Call" and S.callee_name(c) in names and S.callee_name(c) != loop.name
+             and "MarkerClosed" in (model.fn(S.callee_name(c), EXPR).node.get("ret") or "")]
+    prim = sorted(set(cands))
+    if len(prim) != 1:
+        raise AnalysisIncomplete(f"{loop.name}: the primary-form parser was not identified: {prim}")
+    n = 0
+    for rel in ("crates/parser/src/expr.rs", "crates/parser/src/file.rs", "crates/parser/src/pattern.rs", "crates/parser/src/stmt.rs"):
+        try:
+            fns = model.fns(rel)
+        except Exception:
+            continue
+        for f in fns:
+            if f.body is None:
+                continue
+            for c in S.walk(f.body):
+                if c["k"] == "Call" and S.callee_name(c) == prim[0] and (rel != EXPR or S.callee_name(c) in names):
+                    n += 1
+                    ok = f.name == loop.name and rel == EXPR
+                    run.ob("R11.24", f"{f.name}|{prim[0]} is entered from the Pratt loop", ok, site(rel, c["sp"]),
+                           f"call of {prim[0]} in {f.name}",
+                           witness="if a { 1 } else if b { 2 } else { 3 } + 10 evaluates to 11 where it was 1")
+    run.floor("entries into the primary-form parser", n, 1)
+
+
 def r11_14(run, model):
     run.rule("R11.14", "nested tuple projections parse back: `t.1.0` needs no parentheses (`.` is left-associative), but the lexer's longest match "
                        "reads `1.0` as one Float token, so the lowering of `lhs . rhs` accepts a float token of the form digits.digits as two "
@@ -670,6 +733,8 @@ def run(run, model):
     run.try_rule(r11_9, model)
     run.try_rule(r11_12, model)
     run.try_rule(r11_14, model)
+    run.try_rule(r11_23, model)
+    run.try_rule(r11_24, model)
     run.try_rule(r11_15, model)
     run.try_rule(r11_17, model)
     from rules import c12 as _c12
